@@ -2571,6 +2571,25 @@ let parse_edge fuel e lx ps =
                                                                   st1 edge1
                                                                   s_dyndep) with
                                                         | P_ok dyndep ->
+                                                          let fresh =
+                                                            (&&)
+                                                              (negb
+                                                                (b_empty
+                                                                  dyndep))
+                                                              (negb
+                                                                has_indent)
+                                                          in
+                                                          let st2 =
+                                                            if fresh
+                                                            then app st1
+                                                                   (empty_scope :: [])
+                                                            else st1
+                                                          in
+                                                          let eenv2 =
+                                                            if fresh
+                                                            then (length st1) :: e
+                                                            else eenv
+                                                          in
                                                           (match if b_empty
                                                                     dyndep
                                                                  then 
@@ -2589,7 +2608,7 @@ let parse_edge fuel e lx ps =
                                                                     { e_rule =
                                                                     rule0;
                                                                     e_env =
-                                                                    eenv;
+                                                                    eenv2;
                                                                     e_pool =
                                                                     the_pool;
                                                                     e_outs =
@@ -2613,7 +2632,7 @@ let parse_edge fuel e lx ps =
                                                            | P_ok edge2 ->
                                                              P_ok (lx11,
                                                                { ps_store =
-                                                               st1;
+                                                               st2;
                                                                ps_pools =
                                                                ps.ps_pools;
                                                                ps_edges =
